@@ -81,3 +81,222 @@ Print Assumptions c07_immediate_ok_model.
 Print Assumptions c07_delayed_ok_model.
 Print Assumptions c07_fires_ok_model.
 Print Assumptions c07_window_update_ok_model.
+
+(* ====================================================================================================
+   Extension: silence when idle on every trace; the trigger side of the immediate ACK; c07_pre_monitor.
+   ==================================================================================================== *)
+From Utp Require Import Conn.VSock_LemmasStep Conn.VSock_LemmasPipe Conn.C10_Pred Conn.C10_Proofs
+  Conn.C07_Pred2 Conn.C07_Step Conn.C07_Trigger Conn.C07_TriggerStep Conn.C07_Witness.
+
+(* ---- (c) silence when idle ---- *)
+(* one poll: inbox drained and its channel open, the idle guard on the fingerprint, the poll ran to its
+   end and the zero/non-zero status of the advertised window did not change: nothing was emitted *)
+Theorem c07_idle_poll_silent : forall (CC : Type) (cci : cc_iface CC) (s : vsock CC) sc s',
+  v_inbox s = [] -> v_inbox_closed s = false ->
+  c07_idle_pre (v_env_now s) (fp_of_vsock cci s) = true ->
+  poll cci (VSockRec.set_sends s sc) = (s', PollPending) -> v_transport_pending s' = false ->
+  Bool.eqb (v_last_sent_window s =? 0) (v_last_sent_window s' =? 0) = true ->
+  v_out s' = [].
+Proof. exact (@C07_Step.c07_idle_poll_silent). Qed.
+
+(* a poll that ran to its end leaves the inbox drained, its channel open *)
+Theorem c07_completed_poll_drains_inbox : forall (CC : Type) (cci : cc_iface CC) (s s' : vsock CC),
+  poll cci s = (s', PollPending) -> v_transport_pending s' = false ->
+  v_inbox s' = [] /\ v_inbox_closed s' = false.
+Proof. exact (@poll_done_ibe). Qed.
+
+(* a Pending poll never fills a drained inbox *)
+Theorem c07_poll_keeps_inbox_drained : forall (CC : Type) (cci : cc_iface CC) (s s' : vsock CC),
+  (v_inbox s = [] /\ v_inbox_closed s = false) -> poll cci s = (s', PollPending) ->
+  v_inbox s' = [] /\ v_inbox_closed s' = false.
+Proof. exact (@poll_keeps_ibe). Qed.
+
+(* the trace predicate (no longer partial): every trace from a state with a drained, open inbox ... *)
+Theorem c07_idle_silent_from : forall (CC : Type) (cci : cc_iface CC) (cfg : vconfig) ops (s : vsock CC),
+  v_inbox s = [] -> v_inbox_closed s = false ->
+  c07_idle_silent_partial cfg (ftrace cci s ops) = true.
+Proof. exact (@C07_Step.c07_idle_silent_from). Qed.
+
+(* ... in particular every trace of a connection *)
+Theorem c07_idle_silent_every_trace : forall (CC : Type) (cci : cc_iface CC) (cfg : vconfig)
+    (mk : Z -> Z -> CC) (c : vconfig) (s0 : vsock CC) (ops : list vop),
+  vsock_new cci mk c = Some s0 -> c07_idle_silent_partial cfg (ftrace cci s0 ops) = true.
+Proof. exact (@c07_idle_silent_trace). Qed.
+
+(* ---- (a) the trigger side ---- *)
+(* mss <= 65535 in every reachable state (so that usize::MAX forces the ACK) *)
+Theorem c07_mss_u16_new : forall (CC : Type) (cci : cc_iface CC) mk c (s : vsock CC),
+  vsock_new cci mk c = Some s -> mss (v_ss s) <= U16_MAX.
+Proof. exact (@hhi_vsock_new). Qed.
+
+Theorem c07_mss_u16_poll : forall (CC : Type) (cci : cc_iface CC) (s s' : vsock CC),
+  mss (v_ss s) <= U16_MAX -> poll cci s = (s', PollPending) -> mss (v_ss s') <= U16_MAX.
+Proof. exact (@hhi_poll_pending). Qed.
+
+(* process_incoming_message on a trigger (FIN; duplicate ST_DATA; ST_DATA while the reassembly queue holds
+   data), judged on the state in which it is processed: the ACK is forced (consumed_but_unacked_bytes =
+   usize::MAX), or it went out on the spot *)
+Theorem c07_pim_trigger : forall (CC : Type) (cci : cc_iface CC) (s : vsock CC) m s' r,
+  process_incoming_message cci s m = SOk s' r ->
+  c07_is_trigger (v_state s) (v_last_consumed s) (ooq_is_empty (v_rx s)) (m_hdr m) = true ->
+  v_cbu s' = USIZE_MAX \/ exists p, v_out s' = p :: v_out s.
+Proof. exact (@pim_trigger). Qed.
+
+(* any message: the empty/non-empty status of the reassembly queue stays, or the ACK is forced / sent
+   (out-of-order data stored; the last gap filled) *)
+Theorem c07_pim_status : forall (CC : Type) (cci : cc_iface CC) (s : vsock CC) m s' r,
+  process_incoming_message cci s m = SOk s' r ->
+  ooq_is_empty (v_rx s') = ooq_is_empty (v_rx s) \/ v_cbu s' = USIZE_MAX \/
+  exists p, v_out s' = p :: v_out s.
+Proof. exact (@pim_status). Qed.
+
+(* the whole poll: the first message waiting in the inbox is a trigger; the poll ran to its end:
+   at least one packet (each carries the ack number current at its emission) was emitted *)
+Theorem c07_poll_trigger : forall (CC : Type) (cci : cc_iface CC) (s s' : vsock CC) m rest,
+  mss (v_ss s) <= U16_MAX -> v_inbox s = m :: rest ->
+  c07_is_trigger (v_state s) (v_last_consumed s) (ooq_is_empty (v_rx s)) (m_hdr m) = true ->
+  poll cci s = (s', PollPending) -> v_transport_pending s' = false -> v_out s' <> [].
+Proof. exact (@poll_trigger). Qed.
+
+(* the whole poll, whatever the inbox held: the status of the reassembly queue is as before, or a
+   packet was emitted *)
+Theorem c07_poll_status : forall (CC : Type) (cci : cc_iface CC) (s s' : vsock CC),
+  mss (v_ss s) <= U16_MAX -> poll cci s = (s', PollPending) -> v_transport_pending s' = false ->
+  ooq_is_empty (v_rx s') = ooq_is_empty (v_rx s) \/ v_out s' <> [].
+Proof. exact (@poll_status). Qed.
+
+(* the extracted predicates on every trace *)
+Theorem c07_reasm_change_ok_every_trace : forall (CC : Type) (cci : cc_iface CC) (cfg : vconfig)
+    (mk : Z -> Z -> CC) (c : vconfig) (s0 : vsock CC) (ops : list vop),
+  vsock_new cci mk c = Some s0 -> forallb (c07_reasm_change_ok cfg) (ftrace cci s0 ops) = true.
+Proof. exact (@C07_TriggerStep.c07_reasm_change_ok_every_trace). Qed.
+
+Theorem c07_trigger_ok_every_trace : forall (CC : Type) (cci : cc_iface CC) (cfg : vconfig)
+    (mk : Z -> Z -> CC) (c : vconfig) (s0 : vsock CC) (ops : list vop),
+  vsock_new cci mk c = Some s0 -> c07_trigger_ok cfg (ftrace cci s0 ops) = true.
+Proof. exact (@C07_TriggerStep.c07_trigger_ok_every_trace). Qed.
+
+(* ---- the guards are met on reachable traces ---- *)
+Theorem c07_idle_silent_nonvacuous :
+  exists w cfg ops,
+    vconfig_ok cfg = true /\ Forall op_msg_ok ops /\
+    existsb (fun st => c07_idle_pre (fs_now st) (fs_pre st) && c07_poll_done st && c07_wnd_status_same st)
+            (wtrace w cfg ops) = true /\
+    c07_idle_silent_partial cfg (wtrace w cfg ops) = true.
+Proof. exact c07_idle_nonvacuous. Qed.
+
+Theorem c07_trigger_ok_nonvacuous :
+  exists w cfg ops,
+    vconfig_ok cfg = true /\ Forall op_msg_ok ops /\
+    c07_trigger_ok cfg (wtrace w cfg ops) = true /\
+    forallb (c07_reasm_change_ok cfg) (wtrace w cfg ops) = true /\
+    match nth_error (wtrace w cfg ops) 3 with
+    | Some st => c07_fire (m_hdr (wmsg ST_DATA 1 100 10)) st = true | None => False end /\
+    match nth_error (wtrace w cfg ops) 5 with
+    | Some st => c07_status_changed st = true | None => False end /\
+    match nth_error (wtrace w cfg ops) 7 with
+    | Some st => c07_fire (m_hdr (wmsg ST_DATA 2 100 10)) st = true /\ c07_status_changed st = true
+    | None => False end /\
+    match nth_error (wtrace w cfg ops) 9 with
+    | Some st => c07_fire (m_hdr (wmsg ST_FIN 4 100 0)) st = true | None => False end.
+Proof. exact c07_trigger_nonvacuous. Qed.
+
+(* ---- c07_pre_monitor is FALSE of the model (D4 class) ---- *)
+Theorem c07_pre_monitor_refuted :
+  exists w cfg ops,
+    vconfig_ok cfg = true /\ Forall op_msg_ok ops /\
+    forallb (c07_pre_monitor cfg) (wtrace w cfg ops) = false /\
+    existsb c07_ack_lost (wtrace w cfg ops) = true /\
+    forallb (c07_delayed_ok cfg) (wtrace w cfg ops) = true /\
+    forallb (c07_fires_ok cfg) (wtrace w cfg ops) = true /\
+    forallb (c07_immediate_ok cfg) (wtrace w cfg ops) = true.
+Proof. exact c07_pre_monitor_refuted_witness. Qed.
+
+Print Assumptions c07_idle_poll_silent.
+Print Assumptions c07_completed_poll_drains_inbox.
+Print Assumptions c07_poll_keeps_inbox_drained.
+Print Assumptions c07_idle_silent_from.
+Print Assumptions c07_idle_silent_every_trace.
+Print Assumptions c07_mss_u16_new.
+Print Assumptions c07_mss_u16_poll.
+Print Assumptions c07_pim_trigger.
+Print Assumptions c07_pim_status.
+Print Assumptions c07_poll_trigger.
+Print Assumptions c07_poll_status.
+Print Assumptions c07_reasm_change_ok_every_trace.
+Print Assumptions c07_trigger_ok_every_trace.
+Print Assumptions c07_idle_silent_nonvacuous.
+Print Assumptions c07_trigger_ok_nonvacuous.
+Print Assumptions c07_pre_monitor_refuted.
+
+(* ---- the monitored precondition, exactly (Conn/C07_Dist.v) ---- *)
+From Utp Require Import Rx.Rx_NoEof Conn.C07_Dist.
+
+(* the invariant behind it: initial, kept by every event after which the trace goes on *)
+Theorem c07_dist_inv_new : forall (CC : Type) (cci : cc_iface CC) mk c (s : vsock CC),
+  0 <= vc_remote_seq c < M16 -> vsock_new cci mk c = Some s -> DI s.
+Proof. exact (@DI_vsock_new). Qed.
+
+Theorem c07_dist_inv_step : forall (CC : Type) (cci : cc_iface CC) (s : vsock CC) o,
+  DI s -> poll_finished (vstep_out cci s o) = false -> DI (vstep_state cci s o).
+Proof. exact (@DI_vstep_live). Qed.
+
+(* every packet carries the current ack number: the sending path either leaves
+   (last_sent_ack_nr, consumed_but_unacked_bytes) alone or sets them to (last_consumed, 0) *)
+Theorem c07_send_tx_queue_acks : forall (CC : Type) (cci : cc_iface CC) (s : vsock CC),
+  match send_tx_queue cci s with
+  | SOk s' _ | SErr s' _ => sa s s'
+  | SPanic => True
+  end.
+Proof. exact (@send_tx_queue_sa). Qed.
+
+Theorem c07_maybe_send_ack_acks : forall (CC : Type) (s : vsock CC),
+  match maybe_send_ack s with
+  | SOk s' _ | SErr s' _ => sa s s'
+  | SPanic => True
+  end.
+Proof. exact (@maybe_send_ack_sa). Qed.
+
+Theorem c07_dist_ok_every_step : forall (CC : Type) (cci : cc_iface CC) cfg (s : vsock CC) o,
+  DI s -> c07_dist_ok cfg (VSock_Lemmas.fstep_of cci s o) = true.
+Proof. exact (@c07_dist_ok_step). Qed.
+
+Theorem c07_dist_ok_every_trace : forall (CC : Type) (cci : cc_iface CC) (cfg : vconfig)
+    (mk : Z -> Z -> CC) (c : vconfig) (s0 : vsock CC) (ops : list vop),
+  0 <= vc_remote_seq c < M16 -> vsock_new cci mk c = Some s0 ->
+  forallb (c07_dist_ok cfg) (ftrace cci s0 ops) = true.
+Proof. exact (@C07_Dist.c07_dist_ok_every_trace). Qed.
+
+Theorem c07_pre_monitor_g_every_trace : forall (CC : Type) (cci : cc_iface CC) (cfg : vconfig)
+    (mk : Z -> Z -> CC) (c : vconfig) (s0 : vsock CC) (ops : list vop),
+  0 <= vc_remote_seq c < M16 -> vsock_new cci mk c = Some s0 ->
+  forallb (c07_pre_monitor_g cfg) (ftrace cci s0 ops) = true.
+Proof. exact (@C07_Dist.c07_pre_monitor_g_every_trace). Qed.
+
+Theorem c07_dist_ok_nonvacuous :
+  exists w cfg ops,
+    vconfig_ok cfg = true /\ 0 <= vc_remote_seq cfg < M16 /\ Forall op_msg_ok ops /\
+    forallb (c07_pre_monitor cfg) (wtrace w cfg ops) = false /\
+    forallb (c07_dist_ok cfg) (wtrace w cfg ops) = true /\
+    forallb (c07_pre_monitor_g cfg) (wtrace w cfg ops) = true /\
+    existsb (fun st => c07_live st && (0 <? f_cbu (fs_post st)) && (f_cbu (fs_post st) <? M16))
+            (wtrace w cfg ops) = true.
+Proof. exact c07_dist_nonvacuous. Qed.
+
+Theorem c07_pre_monitor_g_guard_nonvacuous :
+  exists w cfg ops,
+    vconfig_ok cfg = true /\ 0 <= vc_remote_seq cfg < M16 /\ Forall op_msg_ok ops /\
+    forallb (c07_pre_monitor_g cfg) (wtrace w cfg ops) = true /\
+    existsb (fun st => c07_poll_done st && (0 <? f_cbu (fs_post st)) && (f_cbu (fs_post st) <=? WRAP_TOLERANCE))
+            (wtrace w cfg ops) = true.
+Proof. exact c07_pre_monitor_g_nonvacuous. Qed.
+
+Print Assumptions c07_dist_inv_new.
+Print Assumptions c07_dist_inv_step.
+Print Assumptions c07_send_tx_queue_acks.
+Print Assumptions c07_maybe_send_ack_acks.
+Print Assumptions c07_dist_ok_every_step.
+Print Assumptions c07_dist_ok_every_trace.
+Print Assumptions c07_pre_monitor_g_every_trace.
+Print Assumptions c07_dist_ok_nonvacuous.
+Print Assumptions c07_pre_monitor_g_guard_nonvacuous.
